@@ -11,9 +11,9 @@ cp $WT/$DEMO $D/zz_seeded_demo_test.go
 echo "demo file: $DEMO"
 cd $WT
 echo "--- demo WITH change (expect FAIL)"; go test -count=1 -run 'Seeded' ./$PKG/ 2>&1 | tail -3
-git stash -q
+git apply -R seeded.patch
 echo "--- demo WITHOUT change (expect ok)"; go test -count=1 -run 'Seeded' ./$PKG/ 2>&1 | tail -2
-git stash pop -q
+git apply seeded.patch
 echo "--- existing tests of the package WITH change"; mv $DEMO /tmp/demo_$ID.go; go test -count=1 ./$PKG/ 2>&1 | tail -2; mv /tmp/demo_$ID.go $DEMO
 cd /verif
 git -C /repo apply $D/patch.diff || { echo "PATCH DOES NOT APPLY to /repo"; exit 1; }
